@@ -51,7 +51,7 @@ for _pid, _mods in EXTRA_MODULES.items():
     if _pid in PROPS:
         PROPS[_pid]["modules"] = list(dict.fromkeys(PROPS[_pid]["modules"] + _mods))
 
-# Obligations over tables regenerated from the Go source on every run (translators T2 and T4, DESIGN 5.4): the Lean
+# Obligations over tables regenerated from the Go source on every run (translators T2, T4, T5, T6, DESIGN 5.4): the Lean
 # module that states the obligation is added to the property's audited modules, the obligation name to
 # PROP["obligations"] (a translator line `OBLIGATION <name> BROKEN <fact>` then counts for the property), and the
 # translator to its trusted base.
@@ -68,6 +68,23 @@ TRANSLATOR_TIES = {
                    "the AddFilter calls reachable from filters.AddStandardFilters; filter_sigs_are_standard re-checks its output "
                    "against the model's table stdFilters on every run (names, parameter types, default-function parameters, "
                    "error result); the filter BODIES are tied by the correspondence streams, not by T2",
+    },
+    "case_tables_wellformed": {
+        "props": ["C16"],
+        "module": "Proofs.CaseTables",
+        "claim": "Tie of the case mapping (translator T6, re-run on every check): unicode.ToUpper and unicode.ToLower of the Go "
+                 "toolchain the engine is built with - the standard library, not a file of the repository - are called on every "
+                 "rune U+0000..U+10FFFF and written as range tables (Liquid/Generated/CaseTables.lean, with unicode.Version); the "
+                 "obligations case_tables_wellformed (ranges non-empty, ascending, disjoint, inside the code space, every image "
+                 "interval made of scalar values), case_tables_idempotent (no image of a range is hit by a range again) and "
+                 "case_tables_round_trip (the exception list of upper_lower_upper_except is exact) are checkers over the ranges, "
+                 "proved sound for every table and evaluated on the regenerated ones by the kernel; another toolchain's tables "
+                 "either pass them again or break the check.",
+        "trusted": "translator T6 (translate/casetables, executes unicode.ToUpper / unicode.ToLower of the toolchain on every rune; reads "
+                   "nothing of the repository) writes the simple case mapping as range tables and re-decodes them against the two "
+                   "functions before writing; that strings.ToUpper / strings.ToLower apply these rune maps as the model says (ASCII "
+                   "byte loop on all-ASCII strings, strings.Map otherwise, an invalid byte written as U+FFFD) is a reading of "
+                   "strings/strings.go of go1.23, tied by the strf stream (every rune in the thorough tier), not by T6",
     },
     "token_re_is_source": {
         "props": ["C05", "C19"],
